@@ -24,6 +24,7 @@ EXPLANATION = (
     ' (D1/D2 as built) the verification state is whatever instance state the deletion guard reads (a flag, a set of pending shanks, None ...): the guard must evaluate to false for the value init_params assigns, and every write that can make it true sits in check_NP24 after the asserting loop.'
     " (D6) a forced re-run starts every shank file empty (same file-effect model as C03-D8); file creation in the prepare step is recognised through the file-effect model (mkdir, open 'w', write_bytes, touch)."
     ' (D2 persisted verification) `check_completed` set from a flag read in the shank meta files is accepted only if the flag is written after the asserting verification loop of check_NP24 and the prepare step removes the shank metas before it opens the shank binaries for writing; otherwise it is deletion without verification.'
+    ' (D2 run-wise form) when check_NP24 compares run by run, the table of a shank must be the run partition of exactly the columns to verify (first shank all, others all but the last channel); cutting the table itself drops a whole run and is reported.'
 )
 ASSUMPTIONS = [
     "Reader.compress_file is lossless and atomically published (C02; mtscomp trusted)",
